@@ -20,6 +20,12 @@ CHECKS = {
          "documented window rule (grid points in [s,e)); R2 plug-in for the differential", "full product enumeration + differential / metamorphic oracles on every execution", "2 C08"),
  "C20": ("E1 over order lists (1..3 orders x 13 placements x side x price level), full execution, companion portfolios, book position, grids; fractions, per-step delivery, payment, value vs. one-variable-per-order reference (R2, MILP for full execution), inertness differential",
          "R2 reference; fractions read from output['special']", "bounded exhaustive scenario enumeration against a reference model", "2 C20"),
+ "C09": ("E3 product: 4 base portfolios (mixed wacc + two-node storage, transport + spread contract, structured asset, linked plants MIP) x all permutations x adversarial asset / node renamings x grids T=4 and T=12; value, relabelled dispatch and DCF compared with the base run (plug-in oracle under degeneracy)",
+         "R2 plug-in where it models the base; otherwise uniqueness decided by two solvers", "full product enumeration + differential oracle against the base run", "2 C09"),
+ "C10": ("E2 explicit-state BFS over histories of API calls (22 operations, depth 3 quick / 4 thorough) on one set of objects with shared grids, interval-dict parameters and shared inner assets; canonical state hashing with merging; after every transition the returned problem equals the one fresh objects return",
+         "canonical state = everything later calls can observe (mc/history.py); module-level state assumed absent", "explicit-state BFS over API histories with state merging; fresh-object equality on every transition", "2 C10"),
+ "C11": ("E1 over 17 asset/portfolio classes x parameter forms (list, datetime64 array, object array, DatetimeIndex, series name) x naive/CET/UTC dates x saved before/after a set-up; load(save(x)) builds, gives the identical problem on 3 grids, save is a fixpoint, own grid keeps points and zone and still optimises",
+         "problem identity by canonical hash; exceptions agree only if the original raises the same type", "bounded exhaustive enumeration + round-trip equality on every case", "2 C11"),
 }
 
 def main():
